@@ -1,6 +1,6 @@
 (* Proofs/TypingExpr.v -- expressions: the checker's check_expr decides the declarative relation
    has_type; compute_ty agrees with check_expr on accepted expressions. *)
-From TV Require Import Base.I32 Model.Ops Model.Expr Model.Typing Spec.TypingRules.
+From TV Require Import Base.I32 Model.Ops Model.Expr Model.TypeCheck Spec.TypingRules.
 Open Scope Z_scope.
 
 (* ---- induction principle for texpr (nested lists) ---- *)
